@@ -962,9 +962,15 @@ fn gen_c14(r: &mut Rng, _t: Tier, _job: u64) -> Plan {
                     2 => r.usize_below(20),
                     _ => 240 + r.usize_below(800),
                 };
+                // rows of a zero-column resultset may still be "written" (write_col is a no-op
+                // there); only rows that were ended count
+                let ncells = if r.coin() { 0 } else { 1 + r.usize_below(3) };
+                let rows: Vec<Vec<Cell>> = (0..nrows)
+                    .map(|_| (0..ncells).map(|_| gen_cell_text(r, false)).collect())
+                    .collect();
                 units.push(Unit::Rows(RowsUnit {
                     cols: vec![],
-                    rows: vec![vec![]; nrows],
+                    rows,
                     write_row: r.coin(),
                     last_row_ended: r.chance(2, 3),
                     close: Close::FinishOne,
@@ -1038,6 +1044,21 @@ fn gen_c16(r: &mut Rng, _t: Tier, _job: u64) -> Plan {
     for _ in 0..nexec {
         let s = r.usize_below(ns);
         let (id, np, types) = &mut st[s];
+        if r.chance(1, 7) {
+            // long data for one parameter of this statement: consumed by its next execution,
+            // which must leave the bound types of the statement alone
+            let n = size_tiny(r);
+            cmds.push(Cmd {
+                seq: 0,
+                kind: CmdKind::LongData {
+                    stmt: *id,
+                    param: r.below(*np as u64) as u16,
+                    data: blob_bytes(r, n),
+                },
+                act: Act::None,
+            });
+            continue;
+        }
         // width-diverse type vectors so that cross-talk or a shifted parse shows up in values
         let rebind = types.is_none() || r.chance(35, 100);
         let bind = if rebind {
@@ -1131,6 +1152,24 @@ fn gen_c17(r: &mut Rng, _t: Tier, _job: u64) -> Plan {
     for _ in 0..nops {
         let s = r.usize_below(ns);
         let (id, np, types) = &mut st[s];
+        if r.chance(1, 9) {
+            // the shim hands the same id out again (same or another parameter count) while long
+            // data may be pending: the new statement starts afresh
+            if r.coin() {
+                *np = 1 + r.usize_below(4);
+            }
+            *types = None;
+            cmds.push(Cmd {
+                seq: 0,
+                kind: CmdKind::Prepare(query_text(r)),
+                act: Act::Prepare(PrepAct::Reply {
+                    id: *id,
+                    params: (0..*np).map(|_| gen_col_text(r)).collect(),
+                    cols: vec![],
+                }),
+            });
+            continue;
+        }
         if r.chance(3, 5) {
             let param = if r.chance(1, 10) {
                 *np as u16 + r.below(3) as u16
